@@ -111,7 +111,7 @@ pub struct RunReport {
 pub fn class_bears_on(class: &str, property: &str) -> bool {
     let c = class;
     match property {
-        "C04" => matches!(c, "panic" | "illegal-bestmove" | "illegal-ponder" | "non-termination" | "abort" | "limit-ignored"),
+        "C04" => matches!(c, "panic" | "illegal-bestmove" | "illegal-ponder" | "non-termination" | "abort" | "limit-ignored" | "missing-bestmove" | "deadlock"),
         "C05" => matches!(
             c,
             "deadlock"
@@ -133,10 +133,10 @@ pub fn class_bears_on(class: &str, property: &str) -> bool {
             c,
             "continued-after-stop" | "illegal-bestmove" | "illegal-ponder" | "game-mutated" | "panic" | "abort" | "followup-illegal-bestmove" | "followup-line" | "followup-panic" | "stop-late"
         ),
-        "C12" => matches!(c, "transcript-diff" | "newgame-not-fresh" | "bench-diff"),
+        "C12" => matches!(c, "transcript-diff" | "newgame-not-fresh" | "bench-diff" | "option-refused-idle"),
         "C13" => matches!(
             c,
-            "option-rejected" | "panic" | "abort" | "illegal-bestmove" | "missing-readyok" | "missing-bestmove" | "deadlock" | "engine-exit" | "options-not-advertised" | "stop-not-honoured" | "command-stuck" | "limit-ignored" | "illegal-ponder"
+            "option-rejected" | "option-refused-idle" | "panic" | "abort" | "illegal-bestmove" | "missing-readyok" | "missing-bestmove" | "deadlock" | "engine-exit" | "options-not-advertised" | "stop-not-honoured" | "command-stuck" | "limit-ignored" | "illegal-ponder"
         ),
         "C14" => matches!(c, "limit-hard-exceeds-half" | "limit-soft-exceeds-hard" | "limit-movetime-not-as-given" | "flag-fall" | "limits-missing" | "limit-ignored" | "panic" | "abort" | "missing-bestmove" | "deadlock"),
         "C19" => c.starts_with("tt-") || matches!(c, "panic" | "abort"),
